@@ -2,6 +2,8 @@ import Qryn.Proofs.Cursor
 import Qryn.Proofs.Assembly
 import Qryn.Proofs.PromSelect
 import Qryn.Proofs.ProfSelector
+import Qryn.Proofs.Stepped
+import Qryn.Proofs.Downsample
 /-! # C17 — Prometheus and Pyroscope label matchers select exactly the matching series
 
 Property theorems only.
@@ -525,25 +527,48 @@ theorem prof_selector_exact (re : Bytes → Bytes → Bool) (table : String) (fr
     `type_id` is `name:period_type:period_unit` (ctrl/qryn/sql/profiles.sql), `sample_types_units` the list of
     (sample type, sample unit); `__profile_type__` is Pyroscope's `name:sample_type:sample_unit:period_type:period_unit`.
     (Pins the field each case of the `switch selector.Name` applies its matcher to: `Gen.ProfSelect.pseudoLabels`.) -/
-theorem prof_pseudo_label_meaning (re : Bytes → Bytes → Bool) (op : Prof.Op) (v : Bytes) (r : PRow) :
-    (selHolds re ⟨[95, 95, 110, 97, 109, 101, 95, 95], op, v⟩ r = opHoldsP re op (typePart r 1) v) ∧
-    (selHolds re ⟨[95, 95, 112, 101, 114, 105, 111, 100, 95, 116, 121, 112, 101, 95, 95], op, v⟩ r = opHoldsP re op (typePart r 2) v) ∧
-    (selHolds re ⟨[95, 95, 112, 101, 114, 105, 111, 100, 95, 117, 110, 105, 116, 95, 95], op, v⟩ r = opHoldsP re op (typePart r 3) v) ∧
-    (selHolds re ⟨[95, 95, 115, 97, 109, 112, 108, 101, 95, 116, 121, 112, 101, 95, 95], op, v⟩ r = r.stu.any (fun x => opHoldsP re op x.1 v)) ∧
-    (selHolds re ⟨[95, 95, 115, 97, 109, 112, 108, 101, 95, 117, 110, 105, 116, 95, 95], op, v⟩ r = r.stu.any (fun x => opHoldsP re op x.2 v)) ∧
-    (selHolds re ⟨[95, 95, 112, 114, 111, 102, 105, 108, 101, 95, 116, 121, 112, 101, 95, 95], op, v⟩ r = r.stu.any (fun x => opHoldsP re op (typePart r 1 ++ [58] ++ x.1 ++ [58] ++ x.2 ++ [58] ++ typePart r 2 ++ [58] ++ typePart r 3) v)) ∧
-    (selHolds re ⟨[115, 101, 114, 118, 105, 99, 101, 95, 110, 97, 109, 101], op, v⟩ r = opHoldsP re op r.serviceName v) := by
+theorem prof_pseudo_label_meaning (re : Bytes → Bytes → Bool) (op : Prof.Op) (v0 : Bytes) (r : PRow) :
+    let v := selVal ⟨[], op, v0⟩
+    (selHolds re ⟨[95, 95, 110, 97, 109, 101, 95, 95], op, v0⟩ r = opHoldsP re op (typePart r 1) v) ∧
+    (selHolds re ⟨[95, 95, 112, 101, 114, 105, 111, 100, 95, 116, 121, 112, 101, 95, 95], op, v0⟩ r = opHoldsP re op (typePart r 2) v) ∧
+    (selHolds re ⟨[95, 95, 112, 101, 114, 105, 111, 100, 95, 117, 110, 105, 116, 95, 95], op, v0⟩ r = opHoldsP re op (typePart r 3) v) ∧
+    (selHolds re ⟨[95, 95, 115, 97, 109, 112, 108, 101, 95, 116, 121, 112, 101, 95, 95], op, v0⟩ r = r.stu.any (fun x => opHoldsP re op x.1 v)) ∧
+    (selHolds re ⟨[95, 95, 115, 97, 109, 112, 108, 101, 95, 117, 110, 105, 116, 95, 95], op, v0⟩ r = r.stu.any (fun x => opHoldsP re op x.2 v)) ∧
+    (selHolds re ⟨[95, 95, 112, 114, 111, 102, 105, 108, 101, 95, 116, 121, 112, 101, 95, 95], op, v0⟩ r = r.stu.any (fun x => opHoldsP re op (typePart r 1 ++ [58] ++ x.1 ++ [58] ++ x.2 ++ [58] ++ typePart r 2 ++ [58] ++ typePart r 3) v)) ∧
+    (selHolds re ⟨[115, 101, 114, 118, 105, 99, 101, 95, 110, 97, 109, 101], op, v0⟩ r = opHoldsP re op r.serviceName v) := by
+  intro v
   refine ⟨?_, ?_, ?_, ?_, ?_, ?_, ?_⟩ <;>
-    simp [selHolds, pseudoOf, nameStr, Gen.ProfSelect.pseudoLabels, List.lookup, fieldSem]
+    simp [v, selVal, selHolds, pseudoOf, nameStr, Gen.ProfSelect.pseudoLabels, List.lookup, fieldSem]
 
 /-- any other name is a key/value selector: the row's key is the name and its value satisfies the operator -/
 theorem prof_key_value_meaning (re : Bytes → Bytes → Bool) (s : Selector) (h : isGlobal s = false) (r : PRow) :
-    selHolds re s r = (r.key == s.name && opHoldsP re s.op r.val s.val) := by
+    selHolds re s r = (r.key == s.name && opHoldsP re s.op r.val (selVal s)) := by
   have : pseudoOf s.name = none := by
     cases hp : pseudoOf s.name with
     | none => rfl
     | some p => simp [isGlobal, hp] at h
   simp [selHolds, this]
+
+/-- **prof_regex_anchored.** The value a selector is compared with (`selVal`, used by the two theorems above): for `=`
+    and `!=` the selector's value, for `=~` and `!~` the pattern wrapped as `^(?:` … `)$` — with ClickHouse `match`
+    a search, the regular expression has to match the whole value, as Pyroscope's (Prometheus') label matchers do
+    (after `fix: Pyroscope selector regular expressions …`; `Gen.ProfSelect.anchoredOps`). -/
+theorem prof_regex_anchored (n v : Bytes) :
+    selVal ⟨n, .eq, v⟩ = v ∧ selVal ⟨n, .ne, v⟩ = v ∧
+    selVal ⟨n, .re, v⟩ = [94, 40, 63, 58] ++ v ++ [41, 36] ∧ selVal ⟨n, .nre, v⟩ = [94, 40, 63, 58] ++ v ++ [41, 36] := by
+  refine ⟨?_, ?_, ?_, ?_⟩ <;>
+    simp [selVal, Prof.Op.str, Gen.ProfSelect.anchoredOps, Gen.ProfSelect.valuePrefix, Gen.ProfSelect.valueSuffix,
+      Prom.ascii] <;> decide
+
+/-- **prof_matcher_on_absent_label_counterexample.** `{region!="x"}` over the one profile series with the only label
+    `env="p"` (fingerprint 5, inside the date range): Pyroscope selects it (no `region` label, "" ≠ "x"); the
+    query does not — there is no index row with key `region` (`prof_selector_exact`, clause (ii)). Kernel-checked.
+    The recorded finding `C17/prof-matcher-on-absent-label`. (region = [114,101,103,105,111,110], env = [101,110,118].) -/
+theorem prof_matcher_on_absent_label_counterexample :
+    (plan "t" [49] [51] [⟨[114, 101, 103, 105, 111, 110], .ne, [120]⟩]).map (fun q =>
+      q.eval (fun _ _ => false) 64 [⟨[50], [101, 110, 118], [112], [99, 112, 117], [], [], 5⟩]) = some [] ∧
+    opHoldsP (fun _ _ => false) .ne (Prom.labelValue [([101, 110, 118], [112])] [114, 101, 103, 105, 111, 110]) [120] = true := by
+  decide
 
 -- non-vacuity / a concrete run: {__name__="cpu", __sample_type__=~"s", job="a"}
 -- type_id = "cpu:p:u" = [99,112,117,58,112,58,117]
@@ -555,5 +580,283 @@ example : ((plan "t" [49] [51] [⟨[95, 95, 110, 97, 109, 101, 95, 95], .eq, [99
            ⟨[50], [106, 111, 98], [97], [120, 58, 112, 58, 117], [], [], 7⟩])) = some [5] := by decide
 
 end ProfSelector
+
+/-! ## Part 5 — the stepped sample path (`processHints`, reader/promql/transpiler/transpiler.go)
+
+Model: `Qryn.Prom.Stepped.run h rows` = what the sample query returns when the raw scan (Part 3) delivers `rows`
+(`fingerprint, value, timestamp_ms` of the selected series inside `[Start, End]`, ordered by fingerprint and time)
+and `TranspileLabelMatchers` applies `processHints` because `hints.Step != 0` (a range query). The function tables,
+the shape of the range filter and the routing constants are `Gen.PromStep`, regenerated from the Go sources on
+every run. `IsLatest l lo hi s` = the engine's instant-vector selection (pinned Prometheus,
+`vectorSelectorSingle`): `s` is the latest sample of `l` inside `[lo, hi]`, `hi` the evaluation time,
+`lo = hi − lookbackDelta`. -/
+section Stepped
+open Qryn Qryn.Prom.Stepped Qryn.Read.Assembly
+
+/-- **stepped_bucket_rows.** The per-step aggregation (Func `""` or an instant-vector function), for every list
+    of raw rows inside `[Start, End]` and every step > 0:
+    * the rows come back ordered by fingerprint and, inside a fingerprint, **strictly** ascending in time —
+      at most one row per (series, step bucket);
+    * every row is a stored sample of **that** series inside the requested range: it carries the value of a raw
+      row `r` of the same fingerprint with `Start ≤ r.ts ≤ End`, re-timed to the end of its bucket,
+      `r.ts ≤ time < r.ts + Step`, `time = Start + k·Step` — and `r` is the **last** stored sample of its bucket
+      (no raw row of the series in the same bucket is later);
+    * every bucket that holds a raw row of a series yields a row of that series. -/
+theorem stepped_bucket_rows (start stop step : Int) (hs : 0 < step) (rows : List Row)
+    (hin : ∀ r ∈ rows, start ≤ r.ts ∧ r.ts ≤ stop) :
+    (bucket start step rows).Pairwise RowLt ∧
+    (∀ o ∈ bucket start step rows, ∃ r ∈ rows, r.fp = o.fp ∧ r.val = o.val ∧ start ≤ r.ts ∧ r.ts ≤ stop ∧
+        o.ts = bucketEnd start step r.ts ∧ r.ts ≤ o.ts ∧ o.ts < r.ts + step ∧
+        (∃ k : Int, 0 ≤ k ∧ o.ts = start + k * step) ∧
+        ∀ x ∈ rows, x.fp = o.fp → bucketEnd start step x.ts = o.ts → x.ts ≤ r.ts) ∧
+    (∀ r ∈ rows, ∃ o ∈ bucket start step rows, o.fp = r.fp ∧ o.ts = bucketEnd start step r.ts) := by
+  refine ⟨bucket_pairwise start step rows, ?_, bucket_complete start step rows⟩
+  intro o ho
+  obtain ⟨r, hr, h1, h2, h3, h4⟩ := bucket_sound start step rows o ho
+  obtain ⟨k, hk, e, _, _⟩ := bucketEnd_spec start step r.ts hs (hin r hr).1
+  refine ⟨r, hr, h1, h3, (hin r hr).1, (hin r hr).2, h2.symm, ?_, ?_, ⟨k, hk, by omega⟩, h4⟩
+  · have := bucketEnd_ge start step r.ts hs (hin r hr).1; omega
+  · have := bucketEnd_lt start step r.ts hs (hin r hr).1; omega
+
+/-- **stepped_series.** Whatever the hints (any Step ≥ 0, Range, Func): when the raw scan delivers its rows ordered
+    by (fingerprint, time), the rows `processHints` makes of them go through the row loop of `Select` without a
+    fault into one series per fingerprint (fingerprints strictly ascending), each holding exactly the returned rows
+    of its fingerprint, ascending in time — so the cursor theorems of Part 1 apply to every series of a range
+    query too. With the per-step aggregation the times inside a series are strictly ascending. -/
+theorem stepped_series (h : Hints) (rows : List Row) (hsorted : SortedRows rows) :
+    ∃ res, assemble (run h rows) = some res ∧
+      (res.map (·.fp)).Pairwise (· < ·) ∧
+      (∀ s ∈ res, s.samples = samplesOf s.fp (run h rows)) ∧
+      (∀ s ∈ res, Sorted s.samples) ∧
+      (h.step ≠ 0 → isInstant h.func = true → isRangeFn h.func = false →
+        ∀ s ∈ res, s.samples.Pairwise (fun a b => a.ts < b.ts)) := by
+  have hrun := run_sorted h rows hsorted
+  obtain ⟨res, hres, hfp, _, hsam⟩ := series_assembly (run h rows) hrun.grouped
+  obtain ⟨res', hres', hsorted', _⟩ := series_samples_sorted_in_range (run h rows) hrun
+    ((run h rows).foldr (fun r acc => min r.ts acc) 0) ((run h rows).foldr (fun r acc => max r.ts acc) 0)
+    (by
+      generalize run h rows = l
+      induction l with
+      | nil => intro r hr; cases hr
+      | cons a t ih =>
+        intro r hr
+        simp only [List.foldr_cons]
+        rcases List.mem_cons.mp hr with rfl | hr
+        · omega
+        · have := ih r hr; omega)
+  rw [hres] at hres'
+  cases hres'
+  refine ⟨res, hres, hfp, hsam, hsorted', ?_⟩
+  intro h0 hi hr s hs
+  rw [hsam s hs]
+  apply samplesOf_strict
+  have : run h rows = bucket h.start h.step rows := by
+    simp [Qryn.Prom.Stepped.run, h0, hi, hr]
+  rw [this]
+  exact bucket_pairwise _ _ _
+
+/-- the lookback claim as the property states it ("a PromQL query over raw samples returns what Prometheus
+    returns"), for an instant-vector selector of a range query: at every evaluation time
+    `t = Start + Δ + i·Step` (`Δ` = lookback delta; `hints.Start` is the first evaluation time minus `Δ`) the engine
+    picks from the bucketed series the value it would pick from the raw samples -/
+def stepped_matches_prometheus_full : Prop :=
+  ∀ (start step Δ : Int), 0 < step → 0 ≤ Δ → ∀ (rows : List Row), (∀ r ∈ rows, start ≤ r.ts) →
+  ∀ f, OneValuePerTs f rows → ∀ i : Int, 0 ≤ i →
+    ∀ v, (∃ o, IsLatest (samplesOf f (bucket start step rows)) (start + Δ + i * step - Δ) (start + Δ + i * step) o ∧ o.v = v) ↔
+         (∃ r, IsLatest (samplesOf f rows) (start + Δ + i * step - Δ) (start + Δ + i * step) r ∧ r.v = v)
+
+/-- **stepped_lookback_partial.** When the lookback delta is a multiple of the step (`Δ = d·Step`: the evaluation
+    times are bucket ends) the bucketed series gives, at every evaluation time `t`, exactly the value of the latest
+    raw sample of the window `(t − Δ − Step, t]` — Prometheus' window `[t − Δ, t]` widened by less than one step at
+    its old end — re-timed to its bucket end. (Recorded finding `C17/stepped-bucket-retimed` for the widening and
+    for steps that do not divide `Δ`.) -/
+theorem stepped_lookback_partial (start step : Int) (hs : 0 < step) (rows : List Row)
+    (hin : ∀ r ∈ rows, start ≤ r.ts) (f : Nat) (hone : OneValuePerTs f rows) (d i : Int) (v : Int) :
+    (∃ o, IsLatest (samplesOf f (bucket start step rows)) (start + d * step + i * step - d * step)
+        (start + d * step + i * step) o ∧ o.v = v) ↔
+    (∃ r, IsLatest (samplesOf f rows) (start + d * step + i * step - d * step - step + 1)
+        (start + d * step + i * step) r ∧ r.v = v) := by
+  have e1 : start + d * step + i * step - d * step = start + i * step := by omega
+  have e2 : start + d * step + i * step = start + (d + i) * step := by rw [Int.add_mul]; omega
+  rw [e1, e2]
+  constructor
+  · rintro ⟨o, ho, rfl⟩
+    obtain ⟨r, hr, hv, _⟩ := latest_bucket_raw start step hs rows hin f i (d + i) o ho
+    exact ⟨r, hr, hv.symm⟩
+  · rintro ⟨r, hr, rfl⟩
+    obtain ⟨o, ho, hv, _⟩ := latest_raw_bucket start step hs rows hin f hone i (d + i) r hr
+    exact ⟨o, ho, hv⟩
+
+/-- **stepped_visible_same_value.** Consequently, with `Δ` a multiple of the step: whenever Prometheus returns a
+    value for the series at an evaluation time (a raw sample lies in `[t − Δ, t]`), the range query over the
+    bucketed samples returns the same value. -/
+theorem stepped_visible_same_value (start step : Int) (hs : 0 < step) (rows : List Row)
+    (hin : ∀ r ∈ rows, start ≤ r.ts) (f : Nat) (hone : OneValuePerTs f rows) (d i : Int) (r : Sample)
+    (hr : IsLatest (samplesOf f rows) (start + d * step + i * step - d * step) (start + d * step + i * step) r) :
+    ∃ o, IsLatest (samplesOf f (bucket start step rows)) (start + d * step + i * step - d * step)
+        (start + d * step + i * step) o ∧ o.v = r.v := by
+  apply (stepped_lookback_partial start step hs rows hin f hone d i r.v).mpr
+  exact ⟨r, hr.widen (by omega), rfl⟩
+
+/-- **stepped_matches_prometheus_counterexample.** Even with `Δ` a multiple of the step: Start 0, Step 2, Δ 2, one
+    sample (value 7) at time 1. At the evaluation time 4 Prometheus' window `[2, 4]` is empty (no value), the
+    bucketed series holds the sample re-timed to 2 and the range query returns 7. Kernel-checked. -/
+theorem stepped_matches_prometheus_counterexample : ¬ stepped_matches_prometheus_full := by
+  intro h
+  have := (h 0 2 2 (by decide) (by decide) [⟨1, 7, 1⟩] (by decide) 1
+    (by intro r hr r' hr' _ _ _; simp at hr hr'; rw [hr, hr']) 1 (by decide) 7).mp
+    ⟨⟨2, 7⟩, by decide, rfl⟩
+  obtain ⟨r, hr, _⟩ := this
+  have hmem := hr.1
+  have hlo := hr.2.1
+  simp [samplesOf, sampleOf] at hmem
+  rw [hmem] at hlo
+  revert hlo
+  decide
+
+/-- **stepped_misaligned_counterexample.** A step that does not divide `Δ`: Start 0, Step 3, Δ 2, one sample (value 7)
+    at time 2 = the first evaluation time. Prometheus returns 7 there; the sample is re-timed to the bucket end 3,
+    past the evaluation time, and the range query returns nothing. Kernel-checked. -/
+theorem stepped_misaligned_counterexample :
+    IsLatest (samplesOf 1 [⟨1, 7, 2⟩]) (0 + 2 + 0 * 3 - 2) (0 + 2 + 0 * 3) ⟨2, 7⟩ ∧
+    samplesOf 1 (bucket 0 3 [⟨1, 7, 2⟩]) = [⟨3, 7⟩] ∧
+    ¬ ∃ o, IsLatest (samplesOf 1 (bucket 0 3 [⟨1, 7, 2⟩])) (0 + 2 + 0 * 3 - 2) (0 + 2 + 0 * 3) o := by
+  refine ⟨by decide, by decide, ?_⟩
+  rintro ⟨o, ho⟩
+  have h1 := ho.1
+  have h3 := ho.2.2.1
+  have e : samplesOf 1 (bucket 0 3 [⟨1, 7, 2⟩]) = [⟨3, 7⟩] := by decide
+  rw [e] at h1
+  simp at h1
+  rw [h1] at h3
+  revert h3
+  decide
+
+/-- **range_filter_exact.** The range filter (range-vector function, `Step > Range`; after
+    `fix: the range-vector sample filter …`) keeps a sample of the scan exactly when it lies in one of the windows
+    `[Start + i·Step, Start + i·Step + Range]`, i ≥ 0 — the windows `[t − Range, t]` the engine evaluates
+    (`hints.Start` = first evaluation time − Range − offset), whatever `Start` is modulo `Step`. -/
+theorem range_filter_exact (start step range ts : Int) (hs : 0 < step) (hr : 0 ≤ range) (hrs : range < step)
+    (ht : start ≤ ts) :
+    keep start step range ts = true ↔
+      ∃ i : Int, 0 ≤ i ∧ start + i * step ≤ ts ∧ ts ≤ start + i * step + range :=
+  keep_iff start step range ts hs hr hrs ht
+
+/-- **range_filter_windows_preserved.** For a range-vector function with `Step > Range` the query returns, for
+    every evaluation window, exactly the raw rows of that window — in scan order, nothing lost, nothing added. -/
+theorem range_filter_windows_preserved (h : Hints) (hs : 0 < h.step) (hr : 0 ≤ h.range) (hrs : h.range < h.step)
+    (hfn : isRangeFn h.func = true) (rows : List Row) (hin : ∀ r ∈ rows, h.start ≤ r.ts) (i : Int) (hi : 0 ≤ i) :
+    (run h rows).filter (fun r => decide (h.start + i * h.step ≤ r.ts ∧ r.ts ≤ h.start + i * h.step + h.range)) =
+      rows.filter (fun r => decide (h.start + i * h.step ≤ r.ts ∧ r.ts ≤ h.start + i * h.step + h.range)) := by
+  have hni : isInstant h.func = false := by
+    have : ∀ f ∈ Gen.PromStep.rangeFuncs, isInstant f = false := by decide
+    exact this _ (by simpa [isRangeFn] using hfn)
+  have hkind : Gen.PromStep.rangeFilter = "windows" := by decide
+  have e : run h rows = rows.filter (fun r => keep h.start h.step h.range r.ts) := by
+    have h0 : h.step ≠ 0 := by omega
+    simp [Qryn.Prom.Stepped.run, h0, hni, hfn, hrs, keepNow, hkind]
+  rw [e, List.filter_filter]
+  apply List.filter_congr
+  intro r hr'
+  have hk := keep_iff h.start h.step h.range r.ts hs hr hrs (hin r hr')
+  by_cases hw : h.start + i * h.step ≤ r.ts ∧ r.ts ≤ h.start + i * h.step + h.range
+  · have : keep h.start h.step h.range r.ts = true := hk.mpr ⟨i, hi, hw.1, hw.2⟩
+    simp [hw, this]
+  · simp [hw]
+
+/-- the filter of the pinned tree (`timestamp_ms % Step == 0 or >= Step − Range`) assumed evaluation times that are
+    multiples of the step: Start 5, Step 10, Range 4 — the sample at 15 opens the window `[15, 19]` of the second
+    evaluation and is dropped; the repaired filter keeps it. Kernel-checked. -/
+theorem range_filter_as_written_drops_needed_sample :
+    keepW 10 4 15 = false ∧ keep 5 10 4 15 = true ∧ (5 + 1 * 10 ≤ (15 : Int) ∧ (15 : Int) ≤ 5 + 1 * 10 + 4) := by decide
+
+/-- the two function tables of `processHints` are disjoint (a function gets the per-step aggregation or the range
+    filter, never both), `timestamp` — which reads the time of the sample — is in neither, and the range filter the
+    source has now is the window form -/
+theorem stepped_function_tables :
+    (∀ f ∈ Gen.PromStep.rangeFuncs, isInstant f = false) ∧ isInstant "timestamp" = false ∧
+    isRangeFn "timestamp" = false ∧ isInstant "" = true ∧ Gen.PromStep.rangeFilter = "windows" := by decide
+
+/-- **reshuffle_key_unambiguous.** The map key `ReshuffleSeries` builds for a label set (after
+    `fix: ReshuffleSeries tells label sets apart …`: every name and value encoded by `strconv.Quote`, `=` between,
+    a blank behind) determines the label set, for every self-delimiting encoding (`strconv.Quote` is one: a Go
+    string literal ends at its first unescaped quote) — the `key` of `reshuffle_once` is the label set. -/
+theorem reshuffle_key_unambiguous (enc : Bytes → Bytes) (h : SelfDelimiting enc) (l₁ l₂ : List (Bytes × Bytes))
+    (e : labelsKey enc l₁ = labelsKey enc l₂) : l₁ = l₂ :=
+  labelsKey_injective enc h l₁ l₂ e
+
+/-- the key of the pinned tree (`name=value` joined by blanks): `{a="b c=d"}` and `{a="b", c="d"}` share it.
+    (a = 97, b = 98, c = 99, d = 100, '=' = 61, ' ' = 32.) Kernel-checked; and the source has the quoted key now. -/
+theorem reshuffle_key_as_written_collides :
+    labelsKeyW [([97], [98, 32, 99, 61, 100])] = labelsKeyW [([97], [98]), ([99], [100])] ∧
+    Gen.PromStep.reshuffleKey = "quoted" := by decide
+
+-- non-vacuity
+example : SelfDelimiting encUnary := encUnary_selfDelimiting
+example : OneValuePerTs 1 [⟨1, 7, 1⟩, ⟨1, 8, 2⟩, ⟨2, 9, 1⟩] := by
+  intro r hr r' hr' h1 h2 h3
+  simp at hr hr'
+  rcases hr with rfl | rfl | rfl <;> rcases hr' with rfl | rfl | rfl <;> simp_all
+example : bucket 0 10 [⟨1, 5, 3⟩, ⟨1, 6, 7⟩, ⟨1, 7, 12⟩, ⟨2, 1, 0⟩] = [⟨1, 6, 10⟩, ⟨1, 7, 20⟩, ⟨2, 1, 0⟩] := by decide
+example : run ⟨5, 100, 10, 4, "rate"⟩ [⟨1, 1, 5⟩, ⟨1, 2, 9⟩, ⟨1, 3, 10⟩, ⟨1, 4, 15⟩] = [⟨1, 1, 5⟩, ⟨1, 2, 9⟩, ⟨1, 4, 15⟩] := by
+  decide
+
+end Stepped
+
+/-! ## Part 6 — the down-sampled sample path (`TranspileLabelMatchersDownsample`)
+
+Model: `Qryn.Prom.Downsample.down h rows` over the `metrics_15s` rows of the series `fp_sel` selects. The path is
+taken for steps of 15 s and more (`Stepped.usesRaw h = false`), outside the quantifier of the property's last
+clause (its values are 15 s aggregates, re-timed to `bucket·Step − 1`); what is proved is the part of the property
+that does not depend on the step: which series and which stored rows take part. -/
+section Downsample
+open Qryn Qryn.Prom.Stepped Qryn.Prom.Downsample
+
+/-- **downsample_rows.** For every hint combination and every content of `metrics_15s`, when the query has a
+    result: its rows are ordered by fingerprint and strictly ascending in time inside a fingerprint (one row per
+    series and output time); every row stands for at least one stored 15 s row **of that series** whose bucket
+    start lies in `[Start, End]` — both ends inclusive, after `fix: down-sampled PromQL scan …` — and whose output
+    time it carries; and every stored row the WHERE keeps is represented in a row of its series. The series are
+    those of `fp_sel`, the same label-index query as on the raw path (`Gen.PromStep.downSelector`), so `select_exact`
+    describes them. -/
+theorem downsample_rows (h : Hints) (rows : List Agg) (out : List DRow) (e : down h rows = some out) :
+    out.Pairwise (fun a b => a.fp < b.fp ∨ (a.fp = b.fp ∧ a.ts < b.ts)) ∧
+    (∀ o ∈ out, ∃ a ∈ rows, a.fp = o.fp ∧ timeOf h a = o.ts ∧ h.start ≤ a.b ∧ a.b ≤ h.stop) ∧
+    (∀ a ∈ scanned h rows, ∃ o ∈ out, o.fp = a.fp ∧ o.ts = timeOf h a) ∧
+    Gen.PromStep.downSelector = "fingerprintsQuery" := by
+  have hk := down_keys h rows out e
+  refine ⟨?_, ?_, ?_, by decide⟩
+  · have := keysD_pairwise h (scanned h rows)
+    rw [← hk, List.pairwise_map] at this
+    exact this
+  · intro o ho
+    have : ((o.fp, o.ts) : Key) ∈ keysD h (scanned h rows) := by
+      rw [← hk]; exact List.mem_map.mpr ⟨o, ho, rfl⟩
+    obtain ⟨a, ha, hka⟩ := (mem_keysD _ _ _).mp this
+    have hmem := List.mem_filter.mp ha
+    have hscan : scanHoldsD h a = true := by
+      have := hmem.2; simp only [Bool.and_eq_true] at this; exact this.1
+    obtain ⟨h1, h2⟩ := (scanHoldsD_iff h a).mp hscan
+    have e1 : a.fp = o.fp := congrArg Prod.fst hka
+    have e2 : timeOf h a = o.ts := congrArg Prod.snd hka
+    exact ⟨a, hmem.1, e1, e2, h1, h2⟩
+  · intro a ha
+    have : keyD h a ∈ keysD h (scanned h rows) := (mem_keysD _ _ _).mpr ⟨a, ha, rfl⟩
+    rw [← hk] at this
+    obtain ⟨o, ho, hko⟩ := List.mem_map.mp this
+    exact ⟨o, ho, congrArg Prod.fst hko, congrArg Prod.snd hko⟩
+
+/-- **downsample_scan_window.** The down-sampled scan keeps exactly the 15 s rows with `Start ≤ bucket start ≤ End`
+    (`Gen.PromStep.downLower/downUpper`) — in particular the bucket that starts exactly at `Start`, whose samples
+    `[Start, Start + 15 s)` all lie inside the window. -/
+theorem downsample_scan_window (h : Hints) (a : Agg) :
+    scanHoldsD h a = true ↔ h.start ≤ a.b ∧ a.b ≤ h.stop := scanHoldsD_iff h a
+
+-- a concrete run: sum_over_time, Step 30 s, Range 60 s: buckets 10 s and 25 s fall into one output time
+example : down ⟨1700000010000, 1700000100000, 30000, 60000, "sum_over_time"⟩
+    [⟨1, 1700000010000, 5, 7, 1, 5, 9, 3⟩, ⟨1, 1700000025000, 6, 8, 6, 6, 6, 1⟩, ⟨1, 1700000040000, 2, 9, 2, 2, 2, 1⟩]
+    = some [⟨1, 1700000009999, 15, 1⟩, ⟨1, 1700000039999, 2, 1⟩] := by decide
+
+end Downsample
 
 end Qryn.C17
